@@ -257,3 +257,5 @@ def run(ctx: Ctx) -> None:
     conf_rule(ctx)
     cnt_rule(ctx)
     fault_rule(ctx, "R02.fault")
+    from ..pipelinespec import step_rule
+    step_rule(ctx, "R02.step")
